@@ -120,6 +120,19 @@ CHECKS = {
   text="Sessions of 40..60 commands: FETCH over all attribute subsets with envelopes (NIL / empty / group address lists, 8-bit and quoted-special text), body structures nested to depth 3 with message/rfc822 and text parts and extension data, body and binary literals of sizes {0,1,2,100,4095,4096,4097,70000}, BINARY.SIZE; STATUS all items; LIST attributes / delimiters / CHILDINFO / OLDNAME / LIST-STATUS pairing; SEARCH vs ESEARCH; SELECT data incl. IMAP4rev2 LIST; APPENDUID; COPYUID tagged and untagged (MOVE and its COPY fallback); EXPUNGE streams; NAMESPACE; capabilities x 3 server configurations x {nothing, UTF8=ACCEPT, IMAP4rev2} enabled.",
   design_ref="DESIGN.md §3 C03",
   note="Only data the wire format can carry is demanded (normalisation listed in the evidence assumptions); the server's encoder is the producer, so server-side encoding defects that the client happens to tolerate are seen only when the decoded value differs."),
+ "C08": dict(
+  category="exploration",
+  technique="online trace checker over the raw response stream of every connection (independent tokenizer): per-connection announced view rebuilt from EXISTS/EXPUNGE/FETCH, invariants asserted on every line, view compared after every NOOP with the real mailbox content listed through a fresh view on a probe connection; sequential multi-session histories against the real server + in-memory backend; race detector on",
+  text="Seeded histories of 60 commands (APPEND/SELECT/EXAMINE/STORE/EXPUNGE/UID EXPUNGE/COPY/MOVE/FETCH/SEARCH/NOOP/IDLE/CLOSE, UID and non-UID forms, numbers, ranges, '*', 'n:*', '$') issued one at a time by 1..4 sessions over shared mailboxes with NOOP probability 3/8/20 % so that views are stale most of the time. Refutes: a sequence number outside 1..announced count (incl. 0), EXPUNGE during non-UID FETCH/STORE/SEARCH, EXISTS below the announced count, a UID inconsistent with its position, a reconstructed view that differs from the mailbox after NOOP.",
+  design_ref="DESIGN.md §3 C08",
+  note="Commands are not overlapped (C14 does that); IDLE pushes are consumed when the session leaves IDLE."),
+
+ "C09": dict(
+  category="exploration",
+  technique="reference-model monitor: sequential multi-session histories over raw connections against the real server + in-memory backend; every response parsed by the independent tokenizer and compared with a reference mailbox model (UID allocation, UIDVALIDITY history, flags, expunge/move sets, STATUS, LIST with an independent wildcard matcher, SEARCH through the independent reference matcher, FETCH sections / partials / BODYSTRUCTURE / ENVELOPE against MIME trees the messages were generated from); crash oracle = missing tagged reply, closed connection or panic in the server log; race detector on",
+  text="Seeded histories of 50 commands (CREATE/DELETE/RENAME/SUBSCRIBE/LIST/LSUB/STATUS/APPEND/SELECT/EXAMINE/STORE/COPY/MOVE/EXPUNGE/UID EXPUNGE/SEARCH/FETCH/NOOP/IDLE/CLOSE) by 1..3 sessions over 2..4 mailboxes; search keys of every kind with NOT/OR/group nesting and RETURN options incl. SAVE/$; sections with part paths, HEADER.FIELDS(.NOT), MIME, TEXT, partials with offsets and sizes up to 2^63-1; LIST patterns with references, multiple patterns, SUBSCRIBED and STATUS return options; every 5th history appends malformed messages (crash probing only); final audit of every mailbox through a fresh connection.",
+  design_ref="DESIGN.md §3 C09",
+  note="Latitude granted where RFC 3501/9051 leave the outcome open is listed in the evidence assumptions; DELETE of a selected mailbox, RENAME of INBOX or of a mailbox with inferiors and write commands under EXAMINE are not generated."),
 }
 
 NOT_YET = "check not built yet in this round (planned in DESIGN.md §3; runtime monitoring applies)"
